@@ -7,6 +7,9 @@ use std::ffi::{c_void, CString};
 use std::io::{Error, ErrorKind};
 use std::mem::size_of;
 use std::path::Path;
+#[cfg(aws_clock_bound_verif)]
+use crate::verif_shim as atomic;
+#[cfg(not(aws_clock_bound_verif))]
 use std::sync::atomic;
 use std::{fs, ptr};
 
